@@ -289,7 +289,7 @@ func (fr *Frame) applyContract(site ssa.Instruction, fc *FuncContract, key strin
 			// a pure function is total and deterministic: its postcondition holds of the application term everywhere
 			ex.assume(tTrue, post.evalBool(e))
 		} else {
-			ex.assume(reach, post.evalBool(e))
+			ex.assumeKind("post", reach, post.evalBool(e))
 		}
 	}
 	return res
@@ -560,9 +560,19 @@ func (fr *Frame) appendBuiltin(site ssa.Instruction, c *ssa.CallCommon, reach T,
 	ex.set(st, ex.allocComp(), ite(fits, oldA, newA))
 	newCap := ex.fresh("appcap", "Int")
 	ex.assume(tTrue, and(app("Bool", ">=", newCap, newLen), app("Bool", "<=", newCap, T{"4611686018427387904", "Int"})))
-	arr := ite(fits, sarr, fresh)
-	off := ite(fits, soff, intLit(0))
-	capv := ite(fits, scap, newCap)
+	// arr/off/cap of the result are named by constants constrained by equalities (not by define-fun macros): an ite
+	// inside an index term would make every quantified fact about the result un-triggerable ('if' in patterns).
+	nameIt := func(prefix string, t T) T {
+		if isAtom(t.s) {
+			return t
+		}
+		c := ex.fresh(prefix, t.sort)
+		ex.emit(fmt.Sprintf("(assert (= %s %s))", c.s, t.s))
+		return c
+	}
+	arr := nameIt("apparr_r", ite(fits, sarr, fresh))
+	off := nameIt("appoff_r", ite(fits, soff, intLit(0)))
+	capv := nameIt("appcap_r", ite(fits, scap, newCap))
 	elems := ex.get(st, comp)
 	oldRow := sel(elems, sarr)
 	// the row after the append
